@@ -106,9 +106,9 @@ def tla_set(xs):
 
 
 def mc(ck, module, name, constants, invariants, properties=(), view=None, timeout=3000,
-       min_states=1, xmx="16g", constraint=None):
+       min_states=1, xmx="16g", constraint=None, spec="Spec"):
     """Model-check one operational module exhaustively within `constants`."""
-    cfg = write_cfg(name, constants=constants, invariants=invariants, properties=properties,
+    cfg = write_cfg(name, spec=spec, constants=constants, invariants=invariants, properties=properties,
                     view=view, constraint=constraint)
     res = run_tlc(module, cfg, name, workers=NCPU, timeout=timeout, xmx=xmx)
     ck.add_tlc(res)
